@@ -252,6 +252,22 @@ CHECKS["C14"] = dict(engine="E1", cat="model_checking", design="4/C14",
                      note="quick tier samples positions per structural class (stated, not exhaustive); thorough is wall-clock "
                           "capped and reports completed ranges; attribute-value faults are warnings in this code base")
 
+CHECKS["C05"] = dict(engine="E2+E1", cat="model_checking", design="4/C05",
+                     technique="breadth-first exploration of edit histories applied to the XML source tree, each state "
+                               "round-tripped through every format and mode on real files; independent xml.etree oracle",
+                     text="Every compliant bundled schema x {xml, mediawiki, tsv} x {merged, unmerged when partnered} (legacy "
+                          "stand-alone libraries: xml and mediawiki), every single edit of a ~35-entry menu (nodes under each "
+                          "structural class of parent, 10 description texts, multi-valued and flag attributes, value-taking "
+                          "children with 0-2 unit / value classes, removals, re-attribution, units in the first and the last "
+                          "standard class, unit class, value class, modifier, rooted library node) on full-size bases, and all "
+                          "edit sequences of length 2 (thorough 3) on a pruned cut of 8.3.0 and on testlib_3.0.0: each "
+                          "reloaded schema must equal the original by HedSchema.__eq__ and by an own canonical dump (incl. "
+                          "unit membership); the reloads must agree; an independent ElementTree reading of the saved XML must "
+                          "equal that of the edited source (library entries only, inLibrary stripped, for unmerged saves); a "
+                          "schema merged from several libraries refuses every save entry point with HedFileError.",
+                     note="edits of a partnered library touch library entries only; descriptions without leading/trailing "
+                          "blanks; known finding: literal <nowiki> markup in a description")
+
 PENDING_REASON = "check not built yet in this revision (planned in DESIGN.md section 4); not claimed until it is"
 
 
